@@ -75,6 +75,11 @@ def hasQuotedName (prog : Expr) : Bool :=
 def letOnRecTop (prog : Expr) : Bool :=
   !prog.layers.isEmpty && (match prog.core with | .set _ true _ => true | _ => false)
 def hasDeref (path : List Step) : Bool := path.any (fun s => s == .deref)
+/-- a name written without quotes -/
+def bareName (n : Text) : Bool := n.all (fun c => c != '"')
+/-- every key of the path is written without quotes (`doc["a"]`, never `doc["\"a\""]`) -/
+def keysBare (path : List Step) : Bool :=
+  path.all (fun s => match s with | .key k => bareName k | .deref => true)
 /-- the set a key step indexes, found on the syntax alone (through let layers, `with` bodies,
     parentheses and lambda bodies, to the argument of a call); identifiers are not followed -/
 def synTarget : Expr → Option (Bool × List Item)
@@ -133,10 +138,8 @@ def causes (fuel : Nat) (prog : Expr) (path : List Step) : List String :=
   (if hasWith prog then ["with"] else []) ++
   (if letOnRecTop prog then ["let-on-document-rec"] else []) ++
   (if hasQuotedName prog then ["quoted-name"] else []) ++
+  (if keysBare path then [] else ["quoted-key"]) ++
   (if hasDeref path then ["value-step"] else [])
-
-/-- a name written without quotes -/
-def bareName (n : Text) : Bool := n.all (fun c => c != '"')
 
 mutual
 /-- the expressions of the fragment of `C10.resolve_partial`: literals, references, `rec` and plain
@@ -160,8 +163,16 @@ def keysOnly (path : List Step) : Bool := path.all (fun s => s != .deref)
     and literals, nested to any depth and with any shadowing, walked by keys; the two exclusions
     inside it are the two findings that live there (`cex_inherit_in_rec_by_key`,
     `cex_document_rec_duplicates_lets`). On every generated input the harness checks that this
-    predicate holds exactly when no root-cause class does. -/
+    predicate holds exactly when no root-cause class does.
+
+    Names and keys are written without quotes (`bareName` in `fragItems`, `keysBare`). Quoted KEYS
+    are outside because the two sides read a key differently: the SPEC `specResolve` (`keyInSet`)
+    takes the key for the attribute's name as it is written in the set, the code
+    (`AttributeSet.__getitem__`, `findBindKey`) takes it for a name TOKEN and compares what the
+    tokens denote (`sameName`), so `doc["\"a\""]` reaches the binding `a = …;` in the code and no
+    attribute in the spec (`C10.quoted_key_finds_bare_binding`). On bare tokens the two readings
+    coincide (`sameName_of_bare`). -/
 def InFragment (prog : Expr) (path : List Step) : Bool :=
-  fragE prog && keysOnly path && !recInheritKey prog path && !letOnRecTop prog
+  fragE prog && keysOnly path && keysBare path && !recInheritKey prog path && !letOnRecTop prog
 
 end Nima.Scope
